@@ -226,6 +226,14 @@ func norm(t *term) *term {
 		if len(t.args) == 1 && isK(t.args[0]) {
 			return t.args[0]
 		}
+		// index arithmetic: int32(a + k) == int32(a) + k (no overflow assumed in 32/64-bit index types)
+		if t.op == "conv" && convBits(t.name) >= 32 && len(t.args) == 1 && t.args[0].op == "add" {
+			var parts []*term
+			for _, a := range t.args[0].args {
+				parts = append(parts, norm(&term{op: "conv", name: t.name, args: []*term{a}}))
+			}
+			return O("add", parts...)
+		}
 		if t.op == "sext" && len(t.args) == 1 && termNonNeg(t.args[0]) {
 			return t.args[0]
 		}
@@ -359,6 +367,9 @@ func (e *evaluator) path(v ssa.Value) string {
 	case *ssa.IndexAddr:
 		return e.path(x.X) + "[" + e.eval(x.Index).String() + "]"
 	case *ssa.Alloc:
+		if t, ok := e.env[x]; ok {
+			return t.String()
+		}
 		return "local:" + x.Comment
 	case *ssa.Slice:
 		return e.eval(x).String()
